@@ -151,14 +151,15 @@ def gen_jobspec(rng, max_tasks=16, shape=None, multi_edges=False, gpu=True, big_
     return {"tasks": tasks, "edges": edges, "ext": ext, "shape": shape, "order": tids}
 
 
-def build_job(js: dict):
+def build_job(js: dict, callable_factory=None):
     """Real JobInstance from the description."""
+    callable_factory = callable_factory or make_callable
     from cascade.low.core import DatasetId, JobInstance, Task2TaskEdge, TaskDefinition, TaskInstance
     tasks = {}
     for tid in js["order"]:
         t = js["tasks"][tid]
         kws = {e[3] for e in js["edges"] if e[2] == tid and e[3] is not None} | set(t["static_kw"])
-        d = TaskDefinition(entrypoint="", func=TaskDefinition.func_enc(make_callable(tid, len(t["outputs"]), t.get("returns_none", False))),
+        d = TaskDefinition(entrypoint="", func=TaskDefinition.func_enc(callable_factory(tid, len(t["outputs"]), t.get("returns_none", False))),
                            environment=[], input_schema={k: "Any" for k in sorted(kws)},
                            output_schema={o: "Any" for o in t["outputs"]}, needs_gpu=t["needs_gpu"])
         tasks[tid] = TaskInstance(definition=d, static_input_kw=dict(t["static_kw"]), static_input_ps=dict(t["static_ps"]))
